@@ -6,7 +6,7 @@ Require Import Yui.Model.KhCube Yui.Model.KhSigns Yui.Model.KhHomology.
 Extraction Language OCaml.
 Extraction "../ocaml/gen/c01_model.ml"
   Z.add N.add Nat.add
-  KhSigns.signed_nums KhSigns.crossing_signs
+  KhSigns.signed_nums KhSigns.kh_crossing_signs
   KhCube.mirror KhCube.crossing_num KhCube.circles KhCube.resolve_by KhCube.first_edge KhCube.q_local
   KhHomology.build_cube KhHomology.cube_ok KhHomology.kh_groups KhHomology.kh_groups_bigraded
   KhHomology.smith_diag KhHomology.factors.
